@@ -312,6 +312,31 @@ def metadata(repo, res):
     bad = [x.effects for x in sums if [e for e in x.effects if e.startswith(("self.units =", "self.name ="))] != want]
     res.check(bool(sums) and not bad, "finalize", fz.where(), "views and templates inherit units and name (on every path of __array_finalize__)", found=bad[:2], rid=r3)
     template_class(repo, res)
+    # iteration: ndarray.__iter__ produces the elements through indexing (__getitem__, checked above).  An override in
+    # the package that wraps the raw scalars itself has to attach the parent's units and name like __getitem__ does.
+    if arr.has_func("unyt_array.__iter__"):
+        it = arr.func("unyt_array.__iter__")
+        res.fn(it)
+        me = it.params[0]
+        ldefs = {}
+        for n_ in ast.walk(it.node):
+            if isinstance(n_, ast.Assign) and len(n_.targets) == 1 and isinstance(n_.targets[0], ast.Name):
+                ldefs.setdefault(n_.targets[0].id, []).append(norm(n_.value))
+
+        def _is(e, attr):
+            t = norm(e) if e is not None else ""
+            return t == f"{me}.{attr}" or (isinstance(e, ast.Name) and ldefs.get(e.id) == [f"{me}.{attr}"])
+
+        ctors = [c for c in ast.walk(it.node) if isinstance(c, ast.Call) and norm(c.func) in ("unyt_quantity", "unyt_array", f"type({me})")]
+        badc = []
+        for c in ctors:
+            units = c.args[1] if len(c.args) > 1 else kwarg_of(c, "units")
+            name = kwarg_of(c, "name")
+            if not (_is(units, "units") and _is(name, "name")):
+                badc.append(norm(c)[:90])
+        res.check(not badc, "iter:metadata", it.where(), "unyt_array.__iter__ builds the elements itself and does not give them the parent's units and name (iterating a named array yields elements whose name is None although indexing keeps it)", f"unyt_quantity(value, {me}.units, ..., name={me}.name)", badc[:2], rid=r3)
+    else:
+        res.ok("iter:inherited-goes-through-getitem", r3)
 
 
 # abstract instances NumPy may hand to __array_finalize__: (ndim, size); shape () is (0, 1)
@@ -418,6 +443,8 @@ MUTANTS = [
     Mutant("coerce-relabels", ARR, "_coerce_iterable_units", "ret.append(datum.in_units(ff.units))", "ret.append(datum)", ("C16-R2",)),
     Mutant("getitem-drops-name", ARR, "unyt_array.__getitem__", "ret = unyt_quantity(ret, bypass_validation=True, name=self.name)", "ret = unyt_quantity(ret, bypass_validation=True)", ("C16-R3", "C16-R1")),
     Mutant("finalize-drops-units", ARR, "unyt_array.__array_finalize__", '        self.units = getattr(obj, "units", NULL_UNIT)\n', "        self.units = NULL_UNIT\n", ("C16-R3", "C07-R3")),
+    Mutant("iter-fast-path-drops-name", ARR, None, "    def __setitem__(self, item, value):\n", "    def __iter__(self):\n        if self.ndim != 1:\n            return super().__iter__()\n        return (unyt_quantity(v, self.units, bypass_validation=True) for v in self.view(np.ndarray))\n\n    def __setitem__(self, item, value):\n", ("C16-R3",)),
+    Mutant("twin-iter-fast-path-keeps-metadata", ARR, None, "    def __setitem__(self, item, value):\n", "    def __iter__(self):\n        if self.ndim != 1:\n            return super().__iter__()\n        return (unyt_quantity(v, self.units, bypass_validation=True, name=self.name) for v in self.view(np.ndarray))\n\n    def __setitem__(self, item, value):\n", (), benign=True),
     Mutant("template-no-demotion", ARR, "unyt_array.__array_finalize__", "        if self.size > 1 and isinstance(self, unyt_quantity):", "        if False:", ("C16-R5",)),
     Mutant("template-demotes-scalars", ARR, "unyt_array.__array_finalize__", "        if self.size > 1 and isinstance(self, unyt_quantity):", "        if self.size > 0 and isinstance(self, unyt_quantity):", ("C16-R5",)),
     Mutant("template-demotes-2d-only", ARR, "unyt_array.__array_finalize__", "        if self.size > 1 and isinstance(self, unyt_quantity):", "        if self.ndim > 1 and isinstance(self, unyt_quantity):", ("C16-R5",)),
